@@ -89,10 +89,22 @@ Qed.
 
 Variable df : nat.
 
+(* the text of a tail begins with an ASCII byte if what follows it does *)
+Lemma tail_ascii eof t r : wf_tail eof t = true -> hd_ascii r = true -> hd_ascii (pr_tail t r) = true.
+Proof.
+  intros Hw Hr. destruct t as [b a sp]. unfold wf_tail, pr_tail in *. cbn [t_b t_anns t_sep] in *. bsplit Hw.
+  unfold hd_ascii. eapply blank_then_e; [eassumption|exact bs_ascii|]. intros _.
+  destruct a as [l|]; cbn [pr_oanns pr_anns]; [reflexivity|]. destruct sp as [|[|] bl]; cbn [pr_sep sep_byte]; auto.
+Qed.
+Lemma tail2_ascii a sp r : hd_ascii r = true -> hd_ascii (pr_tail2 a sp r) = true.
+Proof.
+  intros Hr. destruct a as [[l bl]|]; cbn [pr_tail2 pr_anns]; [reflexivity|]. destruct sp as [|[|] bl]; cbn [pr_sep sep_byte]; auto.
+Qed.
+
 (* typedef *)
 Theorem typedef_inv i r a : p_typedef lf df i = POk r a ->
   exists c, i = pr_typedef c r /\ erase_typedef c = a /\
-            (heads_ok_type (ctd_type c) = true -> wf_typedef (is_nil r) c = true) /\
+            wf_typedef (is_nil r) c = true /\
             (tail_open (ctd_tail c) = true -> noblank r) /\ (typedef_ends_word c = true -> nid r = true).
 Proof.
   unfold p_typedef. intros H. binv H. inversion H; subst.
@@ -103,7 +115,7 @@ Proof.
   eexists (mkCTypedef b1 t b2 _ tl). unfold pr_typedef, erase_typedef, wf_typedef, typedef_ends_word.
   cbn [ctd_b1 ctd_type ctd_b2 ctd_alias ctd_tail]. change kw_typedef with (txt "typedef"). rewrite Ean.
   split; [reflexivity|]. repeat split; auto.
-  - intros Hh. rewrite (blank_ok_nonnil _ _ K1 (whead_nonnil _ Ht)), (Wt Hh), Hal, Wtl.
+  - rewrite (blank_ok_nonnil _ _ K1 (whead_nonnil _ Ht)), (Wt (blank_ne_ascii _ _ K2 N2)), Hal, Wtl.
     rewrite (blank_ok_nonnil _ _ K2) by (apply nonnil_app_ident; exact Hal).
     destruct b1; [contradiction|]. destruct b2; [contradiction|]. reflexivity.
   - intros Hb. rewrite (Hbare Hb). exact Hnid.
@@ -112,7 +124,7 @@ Qed.
 (* const *)
 Theorem constant_inv i r a : p_constant lf df i = POk r a ->
   exists c, i = pr_constant c r /\ erase_constant c = a /\
-            (heads_ok_type (ck_type c) = true -> cok_const (ck_val c) = true -> wf_constant (is_nil r) c = true) /\
+            (hd_ascii r = true -> wf_constant (is_nil r) c = true) /\
             (tail_open (ck_tail c) = true -> noblank r) /\ cont_ok (ck_val c) (pr_tail (ck_tail c) r) = true.
 Proof.
   unfold p_constant. intros H. binv H. inversion H; subst. cbn beta in *.
@@ -122,12 +134,13 @@ Proof.
   destruct (blank_inv _ _ _ _ B1) as [b1 [-> [N1 [K1 _]]]]. destruct (type_inv _ _ _ _ _ T1) as [t [-> [<- [Wt [_ Ht]]]]].
   destruct (blank_inv _ _ _ _ B2) as [b2 [-> [N2 [K2 _]]]]. destruct (ident_inv _ _ _ T2) as [-> [Hname _]].
   destruct (oblank_inv _ _ _ _ B3) as [b3 [-> [K3 _]]]. apply tag_inv in T3. destruct T3 as [-> _].
-  destruct (oblank_inv _ _ _ _ B4) as [b4 [-> [K4 _]]]. destruct (const_inv _ _ _ _ _ T4) as [v [-> [<- [[Wv Hv] Cv]]]].
+  destruct (oblank_inv _ _ _ _ B4) as [b4 [-> [K4 _]]]. destruct (const_inv _ _ _ _ _ T4) as [v [-> [<- [[[Wv Hv] Cv] _]]]].
   destruct (tail_inv _ _ _ _ _ _ _ E4 E5 E6) as [tl [-> [Ean [Wtl [Hop [_ Hbare]]]]]].
   eexists (mkCConstant b1 t b2 _ b3 b4 v tl). unfold pr_constant, erase_constant, wf_constant.
   cbn [ck_b1 ck_type ck_b2 ck_name ck_b3 ck_b4 ck_val ck_tail]. change kw_const with (txt "const"). change sym_const_eq with (txt "=").
   rewrite Ean. split; [reflexivity|]. repeat split; auto.
-  - intros Hh Hc. rewrite (blank_ok_nonnil _ _ K1 (whead_nonnil _ Ht)), (Wt Hh), Hname, (Wv Hc), Wtl.
+  - intros Ha. rewrite (blank_ok_nonnil _ _ K1 (whead_nonnil _ Ht)), (Wt (blank_ne_ascii _ _ K2 N2)), Hname, Wtl.
+    rewrite (Wv (tail_ascii _ _ _ Wtl Ha)).
     rewrite (blank_ok_nonnil _ _ K2) by (apply nonnil_app_ident; exact Hname).
     rewrite (blank_ok_nonnil _ _ K3) by discriminate. rewrite (blank_ok_nonnil _ _ K4 Hv).
     destruct b1; [contradiction|]. destruct b2; [contradiction|]. reflexivity.
@@ -139,14 +152,14 @@ Proof. intros Hk [b0 [rest [-> Hb]]]. unfold kwend in Hk. destruct (aoru_ok b0 r
 
 Lemma attr_group_inv i i1 i2 o o2 : opt p_attribute i = POk i1 o -> opt (p_blank lf) i1 = POk i2 o2 -> noblank i -> whead i2 ->
   exists a : option (bool * blank), i = pr_attr a i2 /\ attr_or_default o = erase_attr a /\
-    match a with Some (_, b) => wf_blank b = true /\ b <> [] | None => True end.
+    match a with Some (_, b) => wf_blank b = true /\ b <> [] | None => is_perr (p_attribute i2) end.
 Proof.
-  intros E1 E2 Hn Hw. apply opt_inv in E1. destruct E1 as [[at_ [-> E1]]|[-> [-> _]]].
+  intros E1 E2 Hn Hw. apply opt_inv in E1. destruct E1 as [[at_ [-> E1]]|[-> [-> Herr]]].
   - rewrite p_attribute_eq in E1. destruct (oblank_inv _ _ _ _ E2) as [b [-> [Kb _]]].
     assert (G : forall (req : bool) (kw : list byte), (if req then txt "required" else txt "optional") = kw -> i = kw ++ pr_blank b i2 -> kwend (pr_blank b i2) ->
                  at_ = (if req then ARequired else AOptional) ->
                  exists a : option (bool * blank), i = pr_attr a i2 /\ attr_or_default (Some at_) = erase_attr a /\
-                   match a with Some (_, b) => wf_blank b = true /\ b <> [] | None => True end).
+                   match a with Some (_, b) => wf_blank b = true /\ b <> [] | None => is_perr (p_attribute i2) end).
     { intros req kw Ekw Ei Hk Ea. exists (Some (req, b)). cbn [pr_attr erase_attr attr_or_default]. rewrite Ekw. split; [exact Ei|].
       split; [subst at_; destruct req; reflexivity|]. split; [apply (blank_ok_nonnil _ _ Kb), whead_nonnil, Hw|].
       intros ->. cbn [pr_blank] in Hk. exact (kwend_whead _ Hk Hw). }
@@ -154,34 +167,53 @@ Proof.
     + unfold attr_req in E1. binv E1. inversion E1; subst. destruct (keyword_inv _ _ _ _ E) as [Ei Hk]. exact (G true _ eq_refl Ei Hk eq_refl).
     + apply alt_one_inv in E1. unfold attr_optl in E1. binv E1. inversion E1; subst. destruct (keyword_inv _ _ _ _ E) as [Ei Hk].
       exact (G false _ eq_refl Ei Hk eq_refl).
-  - destruct (noblank_oblank _ _ _ _ Hn E2) as [-> _]. exists None. repeat split.
+  - destruct (noblank_oblank _ _ _ _ Hn E2) as [-> _]. exists None. repeat split. exact Herr.
 Qed.
 
-Definition dok (d : option (blank * cconst * blank)) : bool := match d with Some (_, v, _) => cok_const v | None => true end.
+(* no requiredness was read although the type begins with the word required / optional: impossible before ASCII *)
+Lemma attr_err_head t R : wf_type t = true -> (type_ends_word t = true -> nid R = true) -> hd_ascii R = true ->
+  is_perr (p_attribute (pr_type t R)) -> head_not_in t [txt "required"; txt "optional"] = true.
+Proof.
+  intros Wt Hn Ha H. unfold head_not_in. destruct t as [[b| | | |[h tl]] an]; cbn [type_path_head]; try reflexivity.
+  cbn [cp_head]. apply negb_true_iff. destruct (bytes_in h [txt "required"; txt "optional"]) eqn:Eb; [|reflexivity]. exfalso.
+  assert (Wp : wf_path (mkCPath h tl) = true) by (destruct an as [[bl a]|]; cbn [wf_type wf_ty] in Wt; bsplit Wt; assumption).
+  unfold wf_path in Wp. cbn [cp_head cp_tail] in Wp. apply andb_prop in Wp. destruct Wp as [_ Wtl].
+  set (Z := match an with Some (bl, a) => pr_blank bl (pr_anns a R) | None => R end).
+  assert (E : pr_type (CType (CTPath (mkCPath h tl)) an) R = h ++ pr_path_tail tl Z) by (destruct an as [[bl a]|]; reflexivity).
+  assert (HZ : wordend Z = true).
+  { unfold Z. destruct an as [[bl a]|].
+    - cbn [wf_type] in Wt. bsplit Wt. apply blank_then; auto with bsdb.
+    - apply wordend_of; [exact Ha|]. apply Hn. reflexivity. }
+  rewrite E, p_attribute_eq in H.
+  assert (H1 : is_perr (attr_req (h ++ pr_path_tail tl Z)) /\ is_perr (attr_optl (h ++ pr_path_tail tl Z))).
+  { cbn [alt] in H. destruct (attr_req (h ++ pr_path_tail tl Z)); cbn in H |- *; auto; contradiction. }
+  destruct H1 as [Hr Ho]. cbn [bytes_in] in Eb. apply orb_prop in Eb. destruct Eb as [Eb|Eb].
+  - apply bytes_eq_eq in Eb. subst h. apply (keyword_path_end kw_required tl Z Wtl HZ). unfold attr_req in Hr.
+    apply pbind_ret_err in Hr. exact Hr.
+  - apply orb_prop in Eb. destruct Eb as [Eb|Eb]; [|discriminate]. apply bytes_eq_eq in Eb. subst h.
+    apply (keyword_path_end kw_optional tl Z Wtl HZ). unfold attr_optl in Ho.
+    apply pbind_ret_err in Ho. exact Ho.
+Qed.
 
 Lemma default_group_inv i i1 i2 o o2 :
   opt (fun i => do i, _ <- tag sym_field_eq i ;; do i, _ <- opt (p_blank lf) i ;; p_const_value lf df i) i = POk i1 o ->
   opt (p_blank lf) i1 = POk i2 o2 -> noblank i ->
-  exists d, i = pr_default d i2 /\ o = erase_default d /\ (i2 <> [] -> dok d = true -> wf_default d = true) /\ noblank i2 /\
+  exists d, i = pr_default d i2 /\ o = erase_default d /\ (i2 <> [] -> hd_ascii i2 = true -> wf_default d = true) /\ noblank i2 /\
             (d = None -> i2 = i) /\ (match d with Some (_, _, b2) => blank_ok b2 i2 | None => True end) /\
             (match d with Some (_, v, b2) => cont_ok v (pr_blank b2 i2) = true | None => True end).
 Proof.
   intros E1 E2 Hn. apply opt_inv in E1. destruct E1 as [[v [-> E1]]|[-> [-> _]]].
   - binv E1. apply tag_inv in E. destruct E as [-> _]. destruct (oblank_inv _ _ _ _ E0) as [b5 [-> [K5 _]]].
-    destruct (const_inv _ _ _ _ _ E1) as [c [-> [<- [[Wc Hc] Cc]]]]. destruct (oblank_inv _ _ _ _ E2) as [b6 [-> [K6 [N6 _]]]].
-    exists (Some (b5, c, b6)). cbn [pr_default erase_default dok wf_default]. change sym_field_eq with (txt "="). repeat split; auto; try discriminate.
-    intros Hr Hok. now rewrite (blank_ok_nonnil _ _ K5 Hc), (Wc Hok), (blank_ok_nonnil _ _ K6 Hr).
+    destruct (const_inv _ _ _ _ _ E1) as [c [-> [<- [[[Wc Hc] Cc] _]]]]. destruct (oblank_inv _ _ _ _ E2) as [b6 [-> [K6 [N6 _]]]].
+    exists (Some (b5, c, b6)). cbn [pr_default erase_default wf_default]. change sym_field_eq with (txt "="). repeat split; auto; try discriminate.
+    intros Hr Ha. now rewrite (blank_ok_nonnil _ _ K5 Hc), (Wc (blank_ok_ascii _ _ K6 Ha)), (blank_ok_nonnil _ _ K6 Hr).
   - destruct (noblank_oblank _ _ _ _ Hn E2) as [-> _]. exists None. repeat split; auto.
 Qed.
-
-Definition ok_field (c : cfield) : bool :=
-  heads_ok_type (cf_type c) && match cf_attr c with None => head_not_in (cf_type c) [txt "required"; txt "optional"] | Some _ => true end &&
-  dok (cf_default c).
 
 Definition dhead (x : list byte) : Prop := exists b0 rest, x = b0 :: rest /\ is_digit b0 = true.
 
 Theorem field_inv i r f : p_field lf df i = POk r f ->
-  exists c, i = pr_field c r /\ erase_field c = f /\ (r <> [] -> ok_field c = true -> wf_field c = true) /\ noblank r /\
+  exists c, i = pr_field c r /\ erase_field c = f /\ (r <> [] -> hd_ascii r = true -> wf_field c = true) /\ noblank r /\
             (cf_sep c = SepNone -> nosep r = true) /\ dhead (pr_field c r) /\
             (field_ends_word c = true -> hd_is is_digit r = false).
 Proof.
@@ -197,21 +229,25 @@ Proof.
   destruct (oblank_inv _ _ _ _ E6) as [b4 [-> [K4 [N4 _]]]].
   destruct (default_group_inv _ _ _ _ _ E7 E8 N4) as [d [-> [-> [Wd [Nd [Hdn [Kd Cd]]]]]]].
   destruct (tail2_inv _ _ _ _ _ _ _ E9 E10 E11 Nd) as [an [sp [-> [-> [Wt2 [Nr [Hsn Ht2n]]]]]]].
-  eexists (mkCField _ b1 b2 at_ t b3 _ b4 d an sp). unfold pr_field, erase_field, wf_field, field_ends_word, ok_field.
+  eexists (mkCField _ b1 b2 at_ t b3 _ b4 d an sp). unfold pr_field, erase_field, wf_field, field_ends_word.
   cbn [cf_id cf_b1 cf_b2 cf_attr cf_type cf_b3 cf_name cf_b4 cf_default cf_anns cf_sep]. change sym_field_colon with (txt ":").
   split; [reflexivity|]. split; [rewrite Eat; f_equal; destruct an as [[? ?]|]; reflexivity|]. split; [|split; [exact Nr|split; [exact Hsn|split]]].
-  - intros Hr Hok. bsplit Hok.
+  - intros Hr Ha.
+    assert (AT : hd_ascii (pr_blank b3 (a5 ++ pr_blank b4 (pr_default d (pr_tail2 an sp r)))) = true).
+    { apply (blank_ok_ascii _ _ K3). now apply ident_ascii. }
+    assert (WT : wf_type t = true) by (apply Wt; exact AT).
     assert (T2n : pr_tail2 an sp r <> []).
     { destruct an as [[l bl]|]; cbn [pr_tail2]; [unfold pr_anns; discriminate|now apply pr_sep_nonnil]. }
     assert (Dn : pr_default d (pr_tail2 an sp r) <> []) by (destruct d as [[[? ?] ?]|]; cbn [pr_default]; [discriminate|exact T2n]).
     rewrite Did, (blank_ok_nonnil _ _ K1) by discriminate.
     assert (An : pr_attr at_ (pr_type t (pr_blank b3 (a5 ++ pr_blank b4 (pr_default d (pr_tail2 an sp r))))) <> []).
     { destruct at_ as [[[|] ?]|]; cbn [pr_attr]; try discriminate. apply whead_nonnil, Ht. }
-    rewrite (blank_ok_nonnil _ _ K2 An). rewrite (Wt ltac:(assumption)), Hname.
+    rewrite (blank_ok_nonnil _ _ K2 An). rewrite WT, Hname.
     rewrite (blank_ok_nonnil _ _ K3) by (now apply nonnil_app_ident). rewrite (blank_ok_nonnil _ _ K4 Dn).
-    rewrite (Wd T2n ltac:(assumption)).
+    rewrite (Wd T2n (tail2_ascii an sp r Ha)).
     assert (Wa : wf_attr at_ t = true).
-    { destruct at_ as [[req ba]|]; cbn [wf_attr]; [destruct Wat as [-> Hne]; destruct ba; [contradiction|reflexivity]|assumption]. }
+    { destruct at_ as [[req ba]|]; cbn [wf_attr]; [destruct Wat as [-> Hne]; destruct ba; [contradiction|reflexivity]|].
+      cbn [pr_attr] in Wat. exact (attr_err_head t _ WT Hew AT Wat). }
     rewrite Wa.
     assert (W2 : wf_tail2 false an sp = true).
     { replace false with (is_nil r) by (destruct r; [contradiction|reflexivity]). exact Wt2. }
